@@ -498,6 +498,28 @@ pub fn request_strategy(ent: &EntitySpec, p: Profile) -> BoxedStrategy<ReqSpec> 
         .boxed()
 }
 
+/// Like `case_strategy`, but the entity's modification time is never in the future: for checks
+/// that compare several `serve()` calls of the same request (a future time is clamped to "now",
+/// so answers to date conditions may legitimately change when the clock ticks between calls).
+pub fn stable_case_strategy(lens: BoxedStrategy<u64>, p: Profile) -> BoxedStrategy<(EntitySpec, ReqSpec)> {
+    (lens, etag_strategy(), past_mtime_strategy(), entity_headers_strategy(), plan_strategy(), prop_oneof![3 => Just(0u8), 1 => Just(2u8)])
+        .prop_map(|(len, etag, mtime, headers, plan, segments)| EntitySpec {
+            len,
+            etag,
+            mtime,
+            headers,
+            plan,
+            faults: vec![],
+            tail: vec![],
+            segments,
+        })
+        .prop_flat_map(move |e| {
+            let r = request_strategy(&e, p);
+            (Just(e), r)
+        })
+        .boxed()
+}
+
 pub fn case_strategy(lens: BoxedStrategy<u64>, p: Profile) -> BoxedStrategy<(EntitySpec, ReqSpec)> {
     entity_strategy(lens)
         .prop_flat_map(move |e| {
